@@ -23,6 +23,10 @@ claimed = {
    text="Decides from source, against reference tables embedded in the checker (FBB protocol document shipped in docs/F6FBB-B2F): framing bytes, block size, chunk-size range, offset limit, SID features, answer constants, checksum line format; an arm for every FBB answer letter in both cases with the prescribed class (H -> Defer is a recorded known finding, pinned by an existing test); only answer constants or handler answers can be stored in a proposal's answer; proposal line field count agrees with the parser (5), one answer byte per proposal; precedence sort stable and after the size sort; sender frame markers all dispatched by the receiver, zero length byte read as 256, two NUL terminators on both sides; emitted block proven <= 5 proposals; non-B2 peers refused. Does not decide transcript-level conformance (checksum values, turn-taking, comment handling) - that needs an independent peer as oracle.",
    technique="constant and switch-arm tables compared with embedded protocol reference tables; writer/reader sibling agreement on SSA; length proof for the emitted block",
    ref="DESIGN.md section 4, C05"),
+ "C16": dict(
+   text="Decides from source: taint analysis over package fbb showing the callback's password can reach no writer, logger or error - only the MD5 hash (so it never appears on the wire for any input); every call through the callback field is protected by a non-nil test (clause reasoning over the early error exit) and that exit precedes all handshake output; the salt equals the 64 reference bytes and the hash covers challenge, password, salt (order checked when the payload is a plain concatenation); the ;PR line and each 'address|response' pair are computed by secureLoginResponse from the challenge and the callback's password for that very address, the pair only on the password-known edge, ;PR only after a successful callback; recognised-form checks of mask 0x3f on digest byte 3, %08d and last-eight slicing. Does not decide the numeric response for all challenge/password pairs (arithmetic on run-time values).",
+   technique="interprocedural taint analysis on SSA with md5.Sum as declassifier; guard/clause dominance for the nil callback; constant table and data-dependence checks",
+   ref="DESIGN.md section 4, C16"),
 }
 
 not_applicable = {
